@@ -89,7 +89,7 @@ PROPS = {
                 "partial: the replica-side registration loop (sync.AddReplica, 5 s ticker) is modelled as 'registration may repeat'",
                 "the last sentence of C09 (stop and restart) is stated over the whole-volume model Model/Cluster.lean: replica directories (writes held, persisted counter, persisted rebuilding flag) under one controller whose gate, acknowledgement rule and election are the controller model's; c09_restart_serves_acked is proved for every history whose stops find a quorum of replicas RW and not rebuilding; c09_unhealthy_stop_loses_ack shows the hypothesis is needed (known finding, DESIGN 6.3)",
                 "tie of the whole-volume model: clusterdiff drives the REAL controller (restarted at every stop; registration, election, Start, WriteAt with failing and failed-but-applied replicas, AddReplica, VerifyRebuildReplica, RemoveReplica) over replica stand-ins that keep the persisted state of a replica directory, and compares every step with `drv cluster`; beside that it checks on the implementation side that every replica listed RW holds every acknowledged write",
-                "assumed in the whole-volume model (proved / tied at the replica level, not here): an RW replica counts each write it applies and a WO replica does not (C10), a promoted replica holds what its source holds (C07) and takes its counter (c10_promotion), attaching a WO replica and persisting its rebuilding flag is one step (sync.Task.AddReplica does CreateReplica, then SetRebuilding(true): T1 fact syncAddOrder)"]},
+                "assumed in the whole-volume model (proved / tied at the replica level, not here): an RW replica counts each write it applies and a WO replica does not (C10), a promoted replica holds what its source holds (C07) and takes its counter (c10_promotion); the addition (attach, then SetRebuilding(true)) and the promotion (VerifyRebuildReplica, then SetRebuilding(false)) are two steps each, in the order T1 syncAddOrder / syncVerifyOrder pin"]},
     "C13": {"lean": CTLMOD, "prefixes": ["c13_", "ctl_reachable_inv"],
             "runs": [ctl("snapshots", 480, 30, 9000, 40, 16), dict(rep("rebuild", 160, 30, 1500, 40, 38), **{"thorough": {"n": 1500, "len": 40, "timeout": 6000}})],
             "modelled": CTL + ["data half: in the rebuild profile, once all three real replicas are RW, volume snapshots are taken through the real controller between foreground writes and the chains and volume images of the three replicas are compared with each other (request cmp) and with the model"]},
